@@ -6,6 +6,7 @@ import warnings
 
 import common
 from props import accessspec as spec
+from props import c09order
 from props import visitlib as vl
 
 PID = "C09"
@@ -49,7 +50,17 @@ def run(tier, seed, build):
                 "spelling (Lean Spec.spell through the driver op arg_spell) in that slot — in the FunctionAnalyser IR (+ Tie B with the Lean "
                 "function analyser and with the Lean namer on the same expression), in `python -m rattr -o ir`, end-to-end in `-o results` "
                 "(callee's accesses attributed to the argument), and with the callees in a followed import; "
-                "non-trivial = distinct (channel, call-site kind, argument expression)")
+                "non-trivial = distinct (channel, call-site kind, argument expression). "
+                "stage O (other functions of the file, py/props/c09order.py) — files = module-level classes (with / without initialiser, two "
+                "namedtuple declarations), function, named lambda, imported function, builtin + one user + a SHADOWING callable (def / async def / "
+                "initialiser / static method / nested def / lambda) that binds a local of that name (14 binder kinds: assignment forms, loop / with "
+                "target, walrus, unpacking, parameter, nested def, except-as, comprehension) and unbinds it (12 kinds: none, del N, del (N, x), "
+                "del [N], in if / loop / try-finally, twice, rebinding, del N.attr, del N[0]) + the users after it (constructor assigned to name / "
+                "attribute / annotated / subscript / walrus, returned bare / in containers, discarded as statement / argument / display / with-item; "
+                "plain calls): every user judged by the same call-site oracle AND against its records in the file without the shadowing callable "
+                "(quick: binder x unbinder product, half of binder x name and unbinder x name, every host x every name); channels: real FileAnalyser "
+                "in-process (+ Tie B op analyse_file on the whole file), `python -m rattr -o ir` on composite files (10 shadowing callables + the "
+                "users of every name), and the composite file as a followed import; non-trivial = distinct file with >= 1 judged call")
     rng = random.Random(seed)
     n_modules = 60 if tier == "quick" else 900
     model = common.Model()
@@ -65,44 +76,8 @@ def run(tier, seed, build):
         if c.im["outcome"] != "ok":
             continue
         classes = spec.local_class_names(c.fn, vl.MODULE_CLASSES)
-        pm = spec.parent_map(c.fn)
-        records = {}
-        for r in c.im["calls"]:
-            records.setdefault(r["name"], []).append((r["args"], r["kwargs"]))
-        judged = 0
-        for a in spec.accesses(c.fn, classes):
-            if a.kind != "call" or a.tags:
-                continue        # dropped / custom-analysed positions are C01's findings
-            call = a.node
-            callee = spec.wcb(spec.spell(call))
-            self_name = None
-            ctx_kind = "plain"
-            if callee in classes:
-                self_name = spec.expected_self(call, pm, callee)
-                if self_name is None:
-                    res.count("context:not-one-to-one-skipped")
-                    continue
-                ctx_kind = "assigned" if not self_name.startswith("@") else ("returned" if self_name == "@ReturnValue" else "discarded")
-            exp_args, exp_kwargs = spec.expected_record(call, self_name)
-            judged += 1
-            res.count("context:" + ctx_kind)
-            res.count(f"nargs:{min(len(call.args), 4)}+kw{min(len(call.keywords), 2)}")
-            got = records.get(callee, [])
-            if (exp_args, exp_kwargs) in [(g[0], g[1]) for g in got]:
-                continue
-            if not got:
-                sig = "call-record-missing"
-            elif any(g[0][-len(call.args):] == exp_args[-len(call.args):] and g[1] == exp_kwargs for g in got if call.args) or \
-                    (not call.args and any(g[1] == exp_kwargs for g in got)):
-                sig = f"instance-argument-wrong:{ctx_kind}"
-            elif any(sorted(g[0]) == sorted(exp_args) for g in got):
-                sig = "positional-arguments-out-of-order"
-            else:
-                sig = "arguments-misspelled-or-dropped"
-            res.count("verdict:" + sig)
-            res.violations.append({"signature": sig, "case": case, "call": spec.spell(call), "line": call.lineno,
-                                   "expected": {"args": exp_args, "kwargs": exp_kwargs}, "recorded": got})
-        if judged and any(len(x[0]) for v in records.values() for x in v):
+        judged = c09order.judge_function(res, c.fn, c.im["calls"], classes, case)
+        if judged and any(len(r["args"]) for r in c.im["calls"]):
             res.nontrivial.add(common.digest(c.fn_src))
         res.sample({"function": c.fn_src, "calls": c.im["calls"][:4]}, cap=3)
     imported_class_case(res)
@@ -110,6 +85,8 @@ def run(tier, seed, build):
     from props import c09args
 
     c09args.run_stage(res, tier, random.Random(seed * 7919 + 9), seed, model)
+    # stage O: the records of a function do not depend on what the other functions of the file do (py/props/c09order.py)
+    c09order.run_stage(res, tier, random.Random(seed * 104729 + 17), seed, model)
     res.assumptions = [
         "which callee names are classes is decided from the module preamble (class statements, namedtuple declarations) and namedtuple declarations in the function",
         "[interp] call-site spelling = README spelling of each argument expression",
@@ -123,6 +100,8 @@ def run(tier, seed, build):
         "partial IR is judged; when it ends BEFORE, the case is classified syntactically (abort_class) — two classes are known findings, "
         "anything else is a violation",
         "stage A file channels hold the probes whose in-process analysis ended ok (at most 1500 in quick: all small ones + a seed-dependent stride)",
+        "stage O: a shadowing callable only ever binds LOCALS (no `global` / `nonlocal` declaration), so in Python the module-level class / function "
+        "the later functions use is untouched; a file whose analysis does not end ok with the shadowing callable (counted order:file-not-ok:*) is not judged",
     ]
     return res
 
@@ -162,6 +141,12 @@ def replay(path):
     import json
     j = json.load(open(path))
     case = j.get("case") or {}
+    if case.get("stage") == "order":
+        import impl
+        from props import c09order
+
+        impl.reset_config()
+        return c09order.replay_case(case)
     if case.get("stage") == "args":
         import impl
         from props import c09args
